@@ -194,6 +194,10 @@ class MoneySys:
 
 class GenericSys:
     PROBE = F(4)
+    # asked in this order: a converter that declines for the large amount
+    # (an older one answers) must still be the first to be asked for the
+    # small one
+    PROBES = [F(250), F(4)]
 
     def __init__(self, n):
         import quantity
@@ -203,7 +207,8 @@ class GenericSys:
         g1, g2, g3 = self.units
         table = [
             {(0, 1): lambda x: 2 * x, (1, 0): lambda x: x / 2},
-            {(0, 1): lambda x: 3 * x - 12, (0, 2): lambda x: x + 1},
+            {(0, 1): lambda x: 3 * x - 12 if x < 100 else None,
+             (0, 2): lambda x: x + 1},
             {(a, b): (lambda x: 10 * x) for a in range(3) for b in range(3)
              if a != b},
             {},
@@ -234,9 +239,9 @@ class GenericSys:
             self._plain[i] = lambda qty, to_unit, h=h: h.convert(qty, to_unit)
         return self._plain[i]
 
-    def answer(self, i, a, b):
+    def answer(self, i, a, b, x=None):
         g = self.tables[i].get((a, b))
-        return None if g is None else g(self.PROBE)
+        return None if g is None else g(self.PROBE if x is None else x)
 
     def key(self):
         return (tuple(self.lst),)
@@ -287,31 +292,34 @@ class GenericSys:
             out.append(('C12:generic:registered-list',
                         f"registered_converters() has {len(got)} entries, "
                         f"model {list(reversed(self.lst))}"))
-        for a in range(3):
-            for b in range(3):
-                if a == b:
-                    continue
-                exp = None
-                for i in reversed(self.lst):
-                    exp = self.answer(i, a, b)
-                    if exp is not None:
-                        break
-                q = self.cls(self.PROBE, self.units[a])
-                try:
-                    r, err = q.convert(self.units[b]), None
-                except Exception as exc:
-                    r, err = None, exc
-                if exp is None:
-                    if not isinstance(err, quantity.UnitConversionError):
-                        out.append(('C12:generic:no-converter',
-                                    f"g{a + 1}->g{b + 1} with {self.lst}: "
-                                    f"{type(err).__name__ if err else repr(r)}"))
-                elif err is not None or O.fr(r.amount) != exp:
-                    out.append(('C12:generic:first-non-none-wins',
-                                f"4 g{a + 1} -> g{b + 1} with converters "
-                                f"{self.lst} (most recent last) = "
-                                f"{repr(r) if err is None else type(err).__name__}"
-                                f", expected {exp}"))
+        for x in self.PROBES:
+            for a in range(3):
+                for b in range(3):
+                    if a == b:
+                        continue
+                    exp = None
+                    for i in reversed(self.lst):
+                        exp = self.answer(i, a, b, x)
+                        if exp is not None:
+                            break
+                    q = self.cls(x, self.units[a])
+                    try:
+                        r, err = q.convert(self.units[b]), None
+                    except Exception as exc:
+                        r, err = None, exc
+                    if exp is None:
+                        if not isinstance(err, quantity.UnitConversionError):
+                            out.append(('C12:generic:no-converter',
+                                        f"{x} g{a + 1}->g{b + 1} with "
+                                        f"{self.lst}: "
+                                        f"{type(err).__name__ if err else repr(r)}"))
+                    elif err is not None or O.fr(r.amount) != exp:
+                        out.append(('C12:generic:first-non-none-wins',
+                                    f"{x} g{a + 1} -> g{b + 1} with "
+                                    f"converters {self.lst} (most recent "
+                                    f"last) = "
+                                    f"{repr(r) if err is None else type(err).__name__}"
+                                    f", expected {exp}"))
         return out
 
 
@@ -347,14 +355,15 @@ class TableSys(GenericSys):
     def fn(self, i):
         return self.convs[i]
 
-    def answer(self, i, a, b):
+    def answer(self, i, a, b, x=None):
+        x = self.PROBE if x is None else x
         rows = self.rows[i]
         if (a, b) in rows:
             f, o = rows[(a, b)]
-            return self.PROBE * f + o
+            return x * f + o
         if (b, a) in rows:
             f, o = rows[(b, a)]
-            return (self.PROBE - o) / F(f)
+            return (x - o) / F(f)
         return None
 
 
